@@ -2,6 +2,7 @@ package c03
 
 import (
 	"bytes"
+	"crypto/ecdsa"
 	"crypto/ed25519"
 	"crypto/rand"
 	"crypto/rsa"
@@ -40,11 +41,13 @@ func allConfigs(tier string) []config {
 			}
 		}
 	}
-	for _, v := range variants {
-		out = append(out, config{scheme: "ed25519", variant: v})
+	for i := 0; i < 3; i++ {
+		for _, v := range variants {
+			out = append(out, config{scheme: "ed25519", variant: v})
+		}
 	}
 	for _, sch := range []string{"pkcs1", "pss"} {
-		for _, bits := range []int{2048, 3072} {
+		for _, bits := range rsaSizes(tier) {
 			for _, h := range []string{"sha256", "sha384", "sha512"} {
 				for _, v := range variants {
 					out = append(out, config{scheme: sch, hash: h, variant: v, bits: bits})
@@ -53,6 +56,13 @@ func allConfigs(tier string) []config {
 		}
 	}
 	return out
+}
+
+func rsaSizes(tier string) []int {
+	if tier == "thorough" {
+		return []int{2048, 3072, 4096}
+	}
+	return []int{2048, 3072}
 }
 
 func newPool(r *hx.Rng, tier string) *pool {
@@ -77,7 +87,7 @@ func newPool(r *hx.Rng, tier string) *pool {
 		p.ed = append(p.ed, hx.H(r.Bytes(32)))
 	}
 	hx.RealRand(func() {
-		for _, bits := range []int{2048, 3072} {
+		for _, bits := range rsaSizes(tier) {
 			for i := 0; i < 2; i++ {
 				k, err := rsa.GenerateKey(rand.Reader, bits)
 				if err != nil {
@@ -477,6 +487,49 @@ func (x *g) p1363Mutant(w int, a, b, order *big.Int) ([]byte, string) {
 	return r.Bytes(2 * w), "bad:random"
 }
 
+// stdSign signs msg (with the LEGACY suffix where due) with the standard
+// library only and encodes the result with the harness's own encoders.
+func (x *g) stdSign(c config, s spec, priv string, msg []byte) []byte {
+	m := msg
+	if s.variant == "L" {
+		m = append(bytes.Clone(msg), 0)
+	}
+	var out []byte
+	hx.RealRand(func() {
+		switch s.scheme {
+		case "ecdsa":
+			ec, _ := stdCurve(s.curve)
+			d := new(big.Int).SetBytes(uh(priv))
+			sk := &ecdsa.PrivateKey{D: d}
+			sk.Curve = ec
+			pub := pubOf(c, priv)
+			n := (len(pub) - 1) / 2
+			sk.X, sk.Y = new(big.Int).SetBytes(pub[1:1+n]), new(big.Int).SetBytes(pub[1+n:])
+			a, b, err := ecdsa.Sign(rand.Reader, sk, digestOf(s.hash, m))
+			if err != nil {
+				return
+			}
+			if s.enc == "der" {
+				out = derEncodeSig(a, b)
+			} else {
+				out = fixed((ec.Params().BitSize+7)/8, a, b)
+			}
+		case "ed25519":
+			out = ed25519.Sign(ed25519.NewKeyFromSeed(uh(priv)), m)
+		case "pkcs1":
+			out, _ = rsa.SignPKCS1v15(nil, parseRSAPriv(priv).std(s.e), cryptoHash(s.hash), digestOf(s.hash, m))
+		case "pss":
+			rk := parseRSAPriv(priv)
+			if s.salt > 0 {
+				out, _ = rsa.SignPSS(rand.Reader, rk.std(s.e), cryptoHash(s.hash), digestOf(s.hash, m), &rsa.PSSOptions{SaltLength: s.salt})
+			} else {
+				out = pssref.Sign(rk.n, rk.d, stdHash(s.hash), nil, digestOf(s.hash, m))
+			}
+		}
+	})
+	return out
+}
+
 // pubOf derives the public key material from the private key of the pool.
 func pubOf(c config, priv string) []byte {
 	switch c.scheme {
@@ -599,6 +652,11 @@ func (x *g) vcase(c config, force string) string {
 		return withBody(nil, "bad:prefix-only")
 	case k == 13:
 		return withBody(r.Bytes(len(body)), "bad:random-body")
+	case k == 14 || k == 15:
+		// signed by the standard library (not by tink-go), encoded by the harness
+		if b := x.stdSign(c, s, priv, msg); b != nil {
+			return withBody(b, "ok:stdlib-signed")
+		}
 	}
 	// scheme-specific manipulations of the body
 	switch s.scheme {
